@@ -352,6 +352,36 @@ except Exception as e:
 """
 
 
+_BASE_REPLAY = """
+import inspect, json, sympy
+from orquestra.quantum.circuits import _builtin_gates as B, _gates as G, Circuit, CustomGateDefinition, circuit_from_dict, to_dict
+ops, width = [], 3
+for n, v in vars(B).items():
+    if n.startswith("_") or not (isinstance(v, G.MatrixFactoryGate) or (callable(v) and getattr(v, "__module__", "") == B.__name__ and n[0].isupper())):
+        continue
+    g = v if isinstance(v, G.MatrixFactoryGate) else v(*[0.25 + 0.5 * i for i in range(len(inspect.signature(v().matrix_factory).parameters))])
+    if isinstance(g, G.MatrixFactoryGate):
+        ops.append(g(*range(g.num_qubits)))
+bad = []
+for arity in range(0, 4):
+    syms = sympy.symbols(f"p0:{arity}") if arity else ()
+    wanted = CustomGateDefinition("MyGate", sympy.Matrix([[1, 0], [0, sum(syms, sympy.Integer(1))]]), tuple(syms))
+    others = [CustomGateDefinition(nm, sympy.Matrix([[0, 1], [1, 0]]), ()) for nm in ("MyGat", "MyGate2", "X2")]
+    for pos in range(4):
+        order = others[:pos] + [wanted] + others[pos:]
+        c = Circuit([d(*([0.5 + i for i in range(arity)] if d is wanted else []))(0) for d in order] + ops, n_qubits=width)
+        try:
+            back = circuit_from_dict(json.loads(json.dumps(to_dict(c))))
+            if back != c or [type(o.gate) for o in back.operations] != [type(o.gate) for o in c.operations] or any(
+                    [float(x) for x in b.params] != [float(x) for x in o.params] for b, o in zip(back.operations, c.operations)):
+                bad.append(f"arity {arity}, definition at {pos}: {[str(o) for o in back.operations if str(o) not in [str(x) for x in c.operations]][:3]}")
+        except Exception as e:
+            bad.append(f"arity {arity}, definition at {pos}: {type(e).__name__}: {e}")
+OK = not bad
+OBSERVED = "; ".join(bad[:3]) or "every built-in gate with distinct numeric parameters and the custom instances round-trip"
+"""
+
+
 class _AbsGate:
     """an arbitrary gate the (de)serialisers must treat as a black box; equality is identity"""
     free_symbols = ()
@@ -458,7 +488,102 @@ def _induction_obs():
                     return core.refuted("shadow-execution", f"circuit of {L} arbitrary operations, width {width}: comes back with width {back.n_qubits} and {len(back.operations)} operations "
                                                             f"(order / qubits / gates changed)", cex={"length": L, "width": width})
         return core.discharged("shadow-execution", time.time() - t0, queries=q)
+    class _AbsParam:
+        """an arbitrary parameter expression the (de)serialisers must treat as a black box"""
+        free_symbols = frozenset()
+
+        def __init__(self, i):
+            self.i = i
+
+        def __repr__(self):
+            return f"<arbitrary parameter #{self.i}>"
+
+    def base_step():
+        """base cases with ABSTRACT parameters: for every built-in gate factory and for custom gate definitions, a gate whose parameters are arbitrary
+        expressions that survive the text format (hypothesis: deserialize_expr(serialize_expr(p)) is p) comes back as the same factory applied to the same
+        parameters in the same order - the real text of _basic_gate_to_dict / _builtin_gate_from_dict / _custom_gate_instance_from_dict on opaque parameters"""
+        import inspect
+        import time
+        import sympy
+        from orquestra.quantum.circuits import _builtin_gates as B, _gates as G
+        t0 = time.time()
+        ns, gfd = load()
+        reg = {}
+
+        def ser(p):
+            if isinstance(p, _AbsParam):
+                reg[f"@@{p.i}"] = p
+                return f"@@{p.i}"
+            return ns["__real_serialize_expr"](p)
+
+        def de(text, names):
+            if isinstance(text, str) and text.startswith("@@"):
+                return reg[text]          # hypothesis: the text format returns the expression it was given
+            return ns["__real_deserialize_expr"](text, names)
+        ns["__real_serialize_expr"], ns["__real_deserialize_expr"] = ns["serialize_expr"], ns["deserialize_expr"]
+        ns["serialize_expr"], ns["deserialize_expr"] = ser, de
+        q = 0
+        max_arity = 0
+        names = [n for n, v in vars(B).items() if not n.startswith("_") and (isinstance(v, G.MatrixFactoryGate) or (callable(v) and getattr(v, "__module__", "") == B.__name__ and n[0].isupper()))]
+        if len(names) < 20:
+            return core.undecided("shadow-execution", f"only {len(names)} built-in gate factories found")
+        for n in names:
+            ref = getattr(B, n)
+            if isinstance(ref, G.MatrixFactoryGate):
+                g = ref
+            else:
+                try:
+                    arity = len(inspect.signature(ref().matrix_factory).parameters)      # the prototype takes *parameters; the matrix function names them
+                    g = ref(*[_AbsParam(i) for i in range(arity)])
+                    max_arity = max(max_arity, arity)
+                except Exception as e:
+                    return core.undecided("shadow-execution", f"built-in factory {n} could not be applied to abstract parameters: {type(e).__name__}: {e}")
+            if not isinstance(g, G.MatrixFactoryGate):
+                continue
+            try:
+                d = ns["to_dict"](g)
+                back = gfd(_json.loads(_json.dumps(d)), [])
+            except Exception as e:
+                return core.refuted("shadow-execution", f"built-in gate {n} with arbitrary parameters: the round trip raises {type(e).__name__}: {e}", cex={"gate": n},
+                                    replay=rp.replay_dict(_BASE_REPLAY, "round trip is the identity"))
+            q += 1
+            if type(back) is not type(g) or back.name != g.name or back.matrix_factory is not g.matrix_factory or len(back.params) != len(g.params) or \
+                    any(a is not b for a, b in zip(back.params, g.params)) or back.num_qubits != g.num_qubits or back.is_hermitian != g.is_hermitian:
+                return core.refuted("shadow-execution", f"built-in gate {n} with arbitrary parameters {g.params} serialises to {d} and comes back as {back.name}{back.params}",
+                                    cex={"gate": n})
+        if max_arity < 2:
+            return core.undecided("shadow-execution", "no built-in factory with two or more parameters was exercised (order of parameters not covered)")
+        # custom gates: definitions with 0..3 parameters, instances with abstract arguments, several definitions in the list, the wanted one anywhere
+        for arity in range(0, 4):
+            syms = sympy.symbols(f"p0:{arity}") if arity else ()
+            mats = sympy.Matrix([[1, 0], [0, sum(syms, sympy.Integer(1))]])
+            wanted = G.CustomGateDefinition("MyGate", mats, tuple(syms))
+            other = [G.CustomGateDefinition(nm, sympy.Matrix([[0, 1], [1, 0]]), ()) for nm in ("MyGat", "MyGate2", "X2")]
+            for pos in range(len(other) + 1):
+                defs = other[:pos] + [wanted] + other[pos:]
+                args = [_AbsParam(100 + i) for i in range(arity)]
+                inst_dict = {"name": "MyGate", **({"params": [ser(a) for a in args]} if args else {})}
+                try:
+                    back = ns["_custom_gate_instance_from_dict"](_json.loads(_json.dumps(inst_dict)), defs)
+                except TypeError as e:
+                    if "_AbsParam" in str(e) or "sympify" in str(e).lower():
+                        # the factory substitutes the arguments into the matrix only when the matrix is asked for; anything that needs the VALUE of an abstract
+                        # parameter is outside this obligation
+                        return core.undecided("shadow-execution", f"custom gate instance needs the value of an abstract parameter: {e}")
+                    return core.refuted("shadow-execution", f"custom gate instance with {arity} arbitrary arguments, definition at position {pos}: raises {e}")
+                except Exception as e:
+                    return core.refuted("shadow-execution", f"custom gate instance with {arity} arbitrary arguments, definition at position {pos}: raises {type(e).__name__}: {e}",
+                                        replay=rp.replay_dict(_BASE_REPLAY, "round trip is the identity"))
+                q += 1
+                if back.name != "MyGate" or len(back.params) != arity or any(a is not b for a, b in zip(back.params, args)) or back.matrix_factory.gate_definition is not wanted:
+                    return core.refuted("shadow-execution", f"custom gate instance with arguments {args}, definition at position {pos} of {len(defs)}: comes back as {back.name}{back.params}",
+                                        replay=rp.replay_dict(_BASE_REPLAY, "round trip is the identity"))
+        return core.discharged("shadow-execution", time.time() - t0, queries=q, sample={"builtin_factories": names, "cases": q})
     out = [step(k) for k in ("controlled", "dagger", "exponential", "power")]
+    out.append(Ob("C05.base[builtin,custom]", "proof", [S + ":_basic_gate_to_dict", S + ":_builtin_gate_from_dict", S + ":_custom_gate_instance_from_dict", S + ":_gate_from_dict"], base_step,
+                  "base cases with ARBITRARY parameter expressions (hypothesis: the expression text format returns the expression it was given): every built-in gate factory and custom gate "
+                  "instances (0..3 arguments, the definition anywhere among look-alike names) come back as the same factory applied to the same parameters in the same order, "
+                  "through real JSON text", timeout=300, assumes=INDUCTION_ASSUMES + ["parameters are opaque: only their serialised text is produced and consumed"]))
     out.append(Ob("C05.induction[operation,circuit]", "proof", [S + ":_gate_operation_to_dict", S + ":_gate_operation_from_dict", S + ":_circuit_to_dict", S + ":circuit_from_dict"], op_step,
                   "an operation of an ARBITRARY gate that round-trips keeps its gate and qubit tuple; a circuit of 0..5 such operations with 0 / 1 / 3 idle qubits above keeps its width, "
                   "length and order (through real JSON text)", timeout=300, assumes=INDUCTION_ASSUMES))
